@@ -176,6 +176,8 @@ def solid_solution(rng, num):
     lines = ["SOLID_SOLUTIONS %s" % num, " CaSrCO3"]
     lines.append(" -comp Calcite %s" % fmt(loguni(rng, 1e-3, 0.1)))
     lines.append(" -comp Strontianite %s" % fmt(loguni(rng, 1e-4, 0.01)))
+    if rng.random() < 0.4:
+        lines.append(" -Gugg_nondim %s %s" % (fmt(round(rng.uniform(0.5, 3.5), 2)), fmt(round(rng.uniform(-1.8, 0.5), 2))))      # non-ideal: ag0 / ag1 are part of the state
     return "\n".join(lines) + "\n"
 
 
